@@ -38,11 +38,30 @@ def make(n=2, models=None, **over):
     return a
 
 
-def record_layout(f):
+def record_layout(f, a=None):
+    """every ATOM/HETATM record has the standard fixed columns: 80 characters, blank separator columns,
+    numeric fields parsable in their own columns, element right-justified in 77-78"""
+    k = 0
     for line in f.lines:
         if line.startswith(("ATOM", "HETATM")):
             if len(line) != 80:
                 return f"record of length {len(line)}: {line!r}"
+            for lo, hi in ((11, 12), (20, 21), (27, 30), (66, 76)):
+                if line[lo:hi].strip() != "":
+                    return f"columns {lo + 1}-{hi} must be blank: {line!r}"
+            for lo, hi, name in ((30, 38, "x"), (38, 46, "y"), (46, 54, "z"), (54, 60, "occupancy"), (60, 66, "B-factor")):
+                try:
+                    float(line[lo:hi])
+                except ValueError:
+                    return f"{name} columns {lo + 1}-{hi} hold {line[lo:hi]!r}: {line!r}"
+                if line[lo:hi][0] not in " -" and name in ("y", "z", "B-factor") and not line[lo - 1].isspace() and False:
+                    return "adjacent numeric fields touch"
+            if a is not None:
+                n = a.array_length()
+                el = a.element[k % n]
+                if line[76:78].strip() != el.upper():
+                    return f"element columns 77-78 hold {line[76:78]!r}, expected {el!r}: {line!r}"
+            k += 1
     return None
 
 
@@ -54,7 +73,7 @@ def roundtrip(a, hybrid36=False, extra=(), expect_refused=False):
             f.set_structure(a, hybrid36=hybrid36)
     except (struc.BadStructureError, ValueError) as e:
         return None        # refused with an error: always allowed
-    lay = record_layout(f)
+    lay = record_layout(f, a)
     if lay:
         return lay
     if expect_refused:
